@@ -60,6 +60,31 @@ Definition init_len (ts : list token) : option nat :=
   | [] => None
   end.
 
+(* bgroups, decided: a run of parenthesis groups that may hold flat brace groups; at one depth no brace group once a ")" has occurred *)
+Fixpoint bwalk (fuel : nat) (ts : list token) (depth : nat) (ok : bool) : bool :=
+  match fuel with
+  | O => false
+  | S f =>
+      match ts with
+      | [] => Nat.eqb depth O
+      | t :: r =>
+          if is_lparen t then bwalk f r (S depth) true
+          else if is_rparen t then match depth with O => false | S d => bwalk f r d false end
+          else if is_lbrace t then
+            if ok && negb (Nat.eqb depth O) then
+              let '(flat, rest) := take_plain r in
+              match rest with
+              | c :: r2 => if is_rbrace c then bwalk f r2 depth true else false
+              | [] => false
+              end
+            else false
+          else if is_rbrace t then false
+          else match depth with O => false | S _ => bwalk f r depth ok end
+      end
+  end.
+Definition bgroups_b (ts : list token) : bool :=
+  match ts with [] => false | _ => bwalk (S (length ts)) ts O true end.
+
 Fixpoint take_words (ts : list token) : list token * list token :=
   match ts with
   | t :: r => if word_tok t then let '(ws, rest) := take_words r in (t :: ws, rest) else ([], ts)
@@ -111,7 +136,7 @@ Definition parse_head (l : language) (ts : list token) : option (head_kind * lis
         let n := groups_len rest 0 in
         let gs := firstn n rest in
         let after := skipn n rest in
-        if negb (groups_b gs) then None else
+        if negb (groups_b gs || (is_jsts l && bgroups_b gs)) then None else
         match split_last ws with
         | None => None
         | Some (before, w) =>
@@ -127,8 +152,8 @@ Definition parse_head (l : language) (ts : list token) : option (head_kind * lis
               match after with
               | a :: _ =>
                   if is_lbrace a then
-                    if is_cfamily l || is_jsts l then Some (HFunc pre base nm_off hend, after) else None
-                  else if is_java l && kw_is a s_throws && Nat.eqb (length fk) 0 then
+                    if (is_cfamily l && groups_b gs) || is_jsts l then Some (HFunc pre base nm_off hend, after) else None
+                  else if is_java l && groups_b gs && kw_is a s_throws && Nat.eqb (length fk) 0 then
                     let '(clause, rest2) := take_until_brace (tl after) in
                     if forallb clause_tok clause then Some (HFunc pre (base ++ a :: clause) nm_off hend, rest2) else None
                   else if is_ts l && is_operator a s_colon then
@@ -139,7 +164,7 @@ Definition parse_head (l : language) (ts : list token) : option (head_kind * lis
               end
             else
               match ws with
-              | kw :: words => if is_keyword kw then Some (HCtrl kw words gs, after) else None
+              | kw :: words => if is_keyword kw && groups_b gs then Some (HCtrl kw words gs, after) else None
               | [] => None
               end
         end
@@ -161,7 +186,7 @@ Definition parse_head (l : language) (ts : list token) : option (head_kind * lis
             let gs := firstn n rest2 in
             match skipn n rest2 with
             | arrow :: after =>
-                if groups_b gs && is_symbol arrow s_arrow then
+                if (groups_b gs || bgroups_b gs) && is_symbol arrow s_arrow then
                   let hd := ck ++ w :: t :: ak ++ gs ++ [arrow] in
                   Some (HFunc pre hd (length ck) (length hd), after)
                 else None
